@@ -134,17 +134,29 @@ def generated_cases(pid, tier, seed):
                 i += 1
 
 
-def run_case(driver, cfg, props):
+SLICE = {
+    "C01": "routing+wiring", "C02": "routing+wiring", "C03": "routing+wiring", "C04": "routing+wiring",
+    "C05": "wiring", "C06": "wiring", "C07": "routing+wiring", "C08": "ports", "C09": "routing+wiring",
+    "C11": "all", "C12": "all", "C13": "routing+wiring", "C14": "routing+wiring",
+}
+
+
+def run_case(driver, cfg, props, model=True):
     """returns dict: status in {rejected, extractor-error, ok}, findings per prop"""
     r = impl.run_floogen(cfg)
     if not r.ok:
-        return {"status": "rejected", "err": f"{r.err_type}: {r.err_msg}"}
+        res = {"status": "rejected", "err": f"{r.err_type}: {r.err_msg}"}
+        if model:
+            m = driver.call({"cmd": "model", "desc": cfg})
+            res["model"] = m.get("model")
+        return res
     try:
         ptoks, _ = svtok.tokenize(r.pkg)
         ttoks, _ = svtok.tokenize(r.top)
     except svtok.TokError as e:
         return {"status": "extractor-error", "err": str(e)}
-    res = driver.call({"cmd": "check", "desc": cfg, "pkg": ptoks, "top": ttoks, "props": props})
+    res = driver.call({"cmd": "check", "desc": cfg, "pkg": ptoks, "top": ttoks, "props": props,
+                       "model": model, "slice": SLICE.get(props[0], "all") if props else "all"})
     if "error" in res:
         return {"status": "extractor-error", "err": res["error"]}
     return {"status": "ok", "findings": res["findings"], "model": res.get("model")}
@@ -222,6 +234,7 @@ class NetRunner:
         t0 = time.time()
         budget_s = 1500 if tier == "thorough" else 110
         reported_claims = set()
+        disagreements = []
 
         def handle(name, meta, cfg):
             nonlocal nontriv, evaluations, model_cmp
@@ -231,6 +244,11 @@ class NetRunner:
             stats[res["status"]] += 1
             if res["status"] == "rejected":
                 stats["rejected:" + res["err"].split(":")[0]] += 1
+                m = res.get("model") or {}
+                if m.get("status") == "ok":
+                    stats["model-accepts-impl-rejects"] += 1
+                    if len(disagreements) < 3:
+                        disagreements.append({"case": name, "cfg": cfg, "impl": res["err"][:200], "model": "accepted"})
                 return
             if res["status"] == "extractor-error":
                 # the emitted text is outside the subset the extractor understands
@@ -254,8 +272,18 @@ class NetRunner:
                 samples.append({"case": name, "endpoints": [e["name"] + str(e.get("array", "")) for e in cfg["endpoints"]],
                                 "routers": cfg["routers"], "algo": cfg["routing"]["route_algo"],
                                 "connections": len(cfg["connections"]), "findings": 0})
-            if res.get("model") is not None:
+            m = res.get("model")
+            if m is not None:
                 model_cmp += 1
+                if m.get("status") != "ok" or not m.get("sliceEqual"):
+                    stats["model-disagrees"] += 1
+                    if len(disagreements) < 3:
+                        disagreements.append({"case": name, "cfg": cfg, "model": {k: m.get(k) for k in ("status", "cls", "msg", "diff")}})
+                elif not m.get("fullEqual"):
+                    stats["model-differs-outside-slice"] += 1
+            hv = res.get("holds", {}).get(pid)
+            if hv is not None and hv != (len(fs) == 0):
+                raise RuntimeError(f"decider and diagnostics disagree on {name}: holds={hv} findings={fs[:2]}")
             for f in fs:
                 if f["claim"] in reported_claims:
                     continue
@@ -278,6 +306,11 @@ class NetRunner:
                 break
             handle(name, meta, cfg)
         drv.close()
+        if disagreements and not rep.violations:
+            # the model no longer describes the implementation on this property's slice and the search
+            # above found no input on which the implementation's own output violates the property
+            rep.unproven({"correspondence": f"Lean model and implementation disagree on the {SLICE.get(pid)} slice"},
+                         {"property": pid, "disagreements": disagreements})
         return {
             "evaluations": evaluations,
             "distinct_nontrivial": nontriv,
